@@ -1404,7 +1404,7 @@ def clone_model_and_freeze_auto_po2_scale(
     # Clone QConv2D layer wiht the new kernel quantizers.
     if kernel_quantizer is not None:
       layer_cfg["kernel_quantizer"]["config"] = kernel_quantizer.get_config()
-    return QConv2D(**layer_cfg)
+    return QConv2D.from_config(layer_cfg)
 
   def _create_qdepthwise_conv2d_layer(layer_cfg, depthwise_quantizer):
     # Clone QDepthwiseConv2D layer with the new depthwise_quantizer quantizer.
